@@ -47,8 +47,11 @@ package object
 //@   ensures fresh(result) && result.store != nil && fresh(result.store) && result.outer == outer && emptymap(result.store)
 //@   modifies nothing
 
+// Get finds the innermost binding of name
 //@ func (e *Env) Get
 //@   ensures result1 ==> result0 != nil
+//@   ensures has(e.store, name) ==> result1 && result0 == e.store[name]
+//@   ensures !has(e.store, name) && e.outer == nil ==> !result1
 //@   modifies nothing
 
 //@ func (e *Env) isTypeMismatch
